@@ -20,7 +20,8 @@ of the code:
 * `deferCancel`    the deferred `subCtxCancel()` (ccall.go:19)
 * `ret r`          the call returned `r`
 * `env cancel`     the harness cancels the caller's context
-* `probe i c`      function `i` (still running) looks at `subCtx.Err()`
+* `probe i c`      a look at `Err()` of the context that was handed to function `i` (any time after
+                   the function was entered, also after it and the call have returned)
 * `quiesce p W`    nothing moves any more; `p`: the call is pending; `W`: functions that are blocked
                    waiting for `subCtx.Done()`
 
@@ -101,7 +102,7 @@ inductive Obs where
   | cbin (i : Nat)                 -- `cbin i`
   | cbout (i : Nat) (r : Res)      -- `cbout i nil|canceled|err j`
   | envCancel                      -- `env cancel`
-  | probe (i : Nat) (c : Bool)     -- `probe i live|cancelled`
+  | probe (i : Nat) (c : Bool)     -- `probe i live|cancelled` (context handed to function i)
   | quiesce (pend : Bool) (W : List Nat) -- `quiesce p|i w1 w2 …`
 deriving DecidableEq, Repr
 
@@ -230,8 +231,8 @@ def step (s : St) : Ev → Option St
   | .envCancel => some { s with ctxC := true }
   | .probe i c =>
     match s.ws[i]? with
-    | some .running => if c = s.subCancelled then some s else none
-    | _ => none
+    | some w => if w.entered = true ∧ c = s.subCancelled then some s else none
+    | none => none
   | .quiesce p W =>
     if quiescent s ∧ p = pendingCall s ∧
        W.all (fun i => s.ws[i]? == some .running && !s.subCancelled) then some s else none
